@@ -468,3 +468,103 @@ def failed_bulk_scenario(ctx, g, rng, n, sig):
                 ctx.add("oracle", sig, "symbolic_expressions after [%s]: %s" % ("; ".join(trail[-3:]), bad), {"trail": trail})
                 break
         ctx.case("failed-bulk:%d:%s" % (rd, trail), True)
+
+
+def deferred_consumption(ctx, g, what, sig):
+    """Lookups return lazy iterables.  A result is OBTAINED, then the structure is edited in a way that cannot change the answer (an
+    element added or removed outside the queried window, or in another interval / section), then the result is CONSUMED: it is still
+    exactly the fresh scan (which is the same before and after such an edit).  Every scope x lookup method of `what`
+    ('blocks' | 'intervals' | 'expressions') x every such edit; deterministic."""
+    from common import exc_name
+    A1, A2 = 0x1000, 0x2000
+
+    def build():
+        ir = g.IR()
+        m = g.Module(name="m", ir=ir)
+        sec = g.Section(name="s", module=m)
+        sec2 = g.Section(name="t", module=m)
+        bi1 = g.ByteInterval(address=A1, size=64, section=sec)
+        bi2 = g.ByteInterval(address=A2, size=64, section=sec2)
+        y = g.Symbol("y", module=m)
+        for k, off in enumerate((4, 8, 12, 40)):
+            (g.CodeBlock if k % 2 else g.DataBlock)(offset=off, size=2, byte_interval=bi1)
+            bi1.symbolic_expressions[off] = g.SymAddrConst(off, y)
+        g.DataBlock(offset=4, size=2, byte_interval=bi2)
+        bi2.symbolic_expressions[4] = g.SymAddrConst(4, y)
+        return ir, m, sec, sec2, bi1, bi2, y
+    win_a, win_o = range(A1 + 2, A1 + 16), range(2, 16)
+
+    def lookups(ir, m, sec, bi1):
+        L = []
+        if what == "blocks":
+            for pre in ("byte", "code", "data"):
+                for scope, nm in ((bi1, "interval"), (sec, "section"), (m, "module"), (ir, "IR")):
+                    for suf in ("on", "at"):
+                        L.append(("%s.%s_blocks_%s" % (nm, pre, suf), lambda scope=scope, pre=pre, suf=suf: getattr(scope, "%s_blocks_%s" % (pre, suf))(win_a)))
+                for suf in ("on_offset", "at_offset"):
+                    L.append(("interval.%s_blocks_%s" % (pre, suf), lambda pre=pre, suf=suf: getattr(bi1, "%s_blocks_%s" % (pre, suf))(win_o)))
+        elif what == "intervals":
+            for scope, nm in ((sec, "section"), (m, "module"), (ir, "IR")):
+                for suf in ("on", "at"):
+                    L.append(("%s.byte_intervals_%s" % (nm, suf), lambda scope=scope, suf=suf: getattr(scope, "byte_intervals_" + suf)(win_a)))
+            for scope, nm in ((m, "module"), (ir, "IR")):
+                for suf in ("on", "at"):
+                    L.append(("%s.sections_%s" % (nm, suf), lambda scope=scope, suf=suf: getattr(scope, "sections_" + suf)(range(A1, A1 + 8))))
+        else:
+            for scope, nm in ((bi1, "interval"), (sec, "section"), (m, "module"), (ir, "IR")):
+                L.append(("%s.symbolic_expressions_at" % nm, lambda scope=scope: scope.symbolic_expressions_at(win_a)))
+            L.append(("interval.symbolic_expressions_at_offset", lambda: bi1.symbolic_expressions_at_offset(win_o)))
+        return L
+
+    def edits(ir, m, sec, sec2, bi1, bi2, y):
+        E = [("nothing", lambda: None),
+             ("a block added to the interval beyond the window", lambda: g.DataBlock(offset=50, size=2, byte_interval=bi1)),
+             ("the block beyond the window removed", lambda: [b for b in bi1.blocks if b.offset == 40][0].__setattr__("byte_interval", None)),
+             ("an expression stored below the window", lambda: bi1.symbolic_expressions.__setitem__(0, g.SymAddrConst(0, y))),
+             ("the expression beyond the window deleted", lambda: bi1.symbolic_expressions.__delitem__(40)),
+             ("a block added to the OTHER interval", lambda: g.CodeBlock(offset=20, size=2, byte_interval=bi2)),
+             ("an expression stored in the OTHER interval", lambda: bi2.symbolic_expressions.__setitem__(9, g.SymAddrConst(9, y))),
+             ("the OTHER interval moved further away", lambda: setattr(bi2, "address", 0x5000)),
+             ("an interval added to the OTHER section", lambda: g.ByteInterval(address=0x7000, size=8, section=sec2)),
+             ("a section added to the module", lambda: g.Section(name="u", module=m)),
+             ("a symbol added to the module", lambda: g.Symbol("z", module=m))]
+        return E
+    n = 0
+    for ei in range(11):
+        nl = len(lookups(*build()[:3], build()[4]))
+        for li in range(nl):
+            ir, m, sec, sec2, bi1, bi2, y = build()
+            # (an earlier lookup of the same kind, so that the lazy indexes exist already in half of the cases)
+            if (ei + li) % 2:
+                for _, f in lookups(ir, m, sec, bi1):
+                    list(f())
+            name, f = lookups(ir, m, sec, bi1)[li]
+            ename, e = edits(ir, m, sec, sec2, bi1, bi2, y)[ei]
+            n += 1
+            try:
+                want0 = sorted(map(_ident, f()))
+                r = f()
+                e()
+                got = sorted(map(_ident, r))
+                want = sorted(map(_ident, f()))
+            except RuntimeError:
+                # "Set changed size during iteration": an iterator taken over a collection that was then resized refuses to go on, as
+                # the built-ins' do -- a refusal, not a wrong answer
+                ctx.count("deferred_consumption_refused")
+                continue
+            except Exception as ex:  # noqa: BLE001
+                ctx.add("oracle", sig, "%s obtained, then %s, then consumed: %s" % (name, ename, exc_name(g, ex)), {"lookup": name, "edit": ename})
+                continue
+            if want != want0:
+                continue          # (the edit does change this lookup's answer: not a case for this scenario)
+            if got != want:
+                ctx.add("oracle", sig, "%s obtained, then %s (which does not change the answer), then consumed: %d results, the fresh scan before and after gives %d"
+                        % (name, ename, len(got), len(want)), {"lookup": name, "edit": ename})
+    ctx.count("deferred_consumption_cases", n)
+    ctx.case("deferred-consumption:" + what, True)
+
+
+def _ident(x):
+    if isinstance(x, tuple):
+        return tuple(id(y) if not isinstance(y, int) else y for y in x)
+    return id(x)
